@@ -1,4 +1,5 @@
 """C15 every codec round-trips every payload and interoperates with reference codecs."""
+import os
 import random
 import zlib
 
@@ -67,6 +68,13 @@ def check(run, replay_case=None):
                 ops.append({'id': '%s/rd' % cid, 'op': 'codec_decompress', 'codec': cj, 'bytes': ocf.compress(c['codec'], d, rng).hex()})
         b1.append(ops)
     ev = run.exec_cases(b1, cpu_limit_s=3000)
+    if (thorough or os.environ.get('VERIF_SANITIZERS') == '1') and replay_case is None:
+        # compress + decompress of small payloads under memory-safety monitors: Miri for the Rust codecs, memcheck for all (xz/zstandard are C)
+        from .. import sanitizers
+        rust = [b for b, c in zip(b1, cases) if c['codec'] in ('null', 'deflate', 'snappy', 'bzip2') and len(c['data']) <= 600]
+        sanitizers.miri_stage(run, rust, ev, max_cases=int(os.environ.get('VERIF_MIRI_CASES', '60')), shards=12, what='codec_ops', max_bytes=4000,
+                              prefer=lambda b: (b[0]['codec']['name'] != 'null') * 2 + (len(b) > 1) + {'snappy': 0.3, 'bzip2': 0.2, 'deflate': 0.1}.get(b[0]['codec']['name'], 0))
+        sanitizers.memcheck_stage(run, [b for b, c in zip(b1, cases) if len(c['data']) <= 70000], ev, max_cases=400, shards=16)
     b2 = []
     for c in cases:
         cid = c['cid']
